@@ -33,3 +33,23 @@ pub type IResult<I, O> = Result<(I, O), Err<Error<I>>>;
 pub fn make_error<I>(input: I, kind: ErrorKind) -> (e: Error<I>)
     ensures e.input == input, e.code == kind,
 { Error { input, code: kind } }
+
+// nom::bytes::streaming::take(count): streaming take over &[u8].
+// ASSUMED here; OBLIGATION of Kani harness shim_take (real nom, input <= 12 bytes, count full-domain).
+pub open spec fn take_post(count: int, i: Seq<u8>, r: IResult<&[u8], &[u8]>) -> bool {
+    if i.len() >= count {
+        match r {
+            Ok((rem, out)) => rem@ =~= i.subrange(count, i.len() as int) && out@ =~= i.subrange(0, count),
+            Err(_) => false,
+        }
+    } else {
+        r == Err::<(&[u8], &[u8]), Err<Error<&[u8]>>>(Err::Incomplete(Needed::Size((count - i.len()) as usize)))
+    }
+}
+
+#[verifier::external_body]
+pub fn take<'a>(count: usize) -> (f: impl Fn(&'a [u8]) -> IResult<&'a [u8], &'a [u8]>)
+    ensures
+        forall|i: &'a [u8]| #[trigger] f.requires((i,)),
+        forall|i: &'a [u8], r: IResult<&'a [u8], &'a [u8]>| #[trigger] f.ensures((i,), r) ==> take_post(count as int, i@, r),
+{ |i: &'a [u8]| -> IResult<&'a [u8], &'a [u8]> { unimplemented!() } }
